@@ -370,8 +370,65 @@ func c18RandVal(r *rng, f fieldSpec) any {
 	return randValue(r, f.code, f.nullable, false)
 }
 
+// c18CapAlias: a slice emptied by re-slicing keeps its storage; after Copy,
+// appending through one resource must not show through the other (oracle only:
+// the heap model has no slice capacities).
+func c18CapAlias(c *ctx, t typeSpec, wrapped bool, field string, viaNew bool) {
+	var key, detail string
+	f := t.field(field)
+	p, pv := guard(func() {
+		var full, one, two any
+		if f.rel {
+			full, one, two = []string{"t1", "t2", "t3"}, "copy-tag", "src-tag"
+		} else {
+			full, one, two = []byte("first draft"), byte('c'), byte('s')
+		}
+		src := buildRes(t, wrapped, []setOp{{"id", "1"}, {field, full}})
+		app := func(r jsonapi.Resource, x any) {
+			switch v := r.Get(field).(type) {
+			case []string:
+				r.Set(field, append(v, x.(string)))
+			case []byte:
+				r.Set(field, append(v, x.(byte)))
+			}
+		}
+		switch v := src.Get(field).(type) {
+		case []string:
+			src.Set(field, v[:0])
+		case []byte:
+			src.Set(field, v[:0])
+		}
+		var other jsonapi.Resource
+		if viaNew {
+			other = src.(jsonapi.Copier).New()
+		} else {
+			other = src.(jsonapi.Copier).Copy()
+		}
+		app(other, one)
+		before := oReadField(*f, other.Get(field))
+		app(src, two)
+		if after := oReadField(*f, other.Get(field)); after != before {
+			key, detail = "copy-not-independent", fmt.Sprintf("%s: appending to the source's emptied slice changed the other's from %s to %s", field, before, after)
+		}
+	})
+	if p {
+		key, detail = "copy-history-panics", fmt.Sprint(pv)
+	}
+	how := fmt.Sprintf("emptied slice, wrapped=%v field=%s new=%v", wrapped, field, viaNew)
+	k := c.add("cap-alias", how, how, false, oL(nil), oL(nil), key, detail)
+	k.Replay = how
+}
+
 func runC18(c *ctx) {
 	t := c18Type
+	for _, wrapped := range []bool{false, true} {
+		for _, field := range []string{"b", "many", "many2"} {
+			if t.field(field) != nil {
+				c18CapAlias(c, t, wrapped, field, false)
+				c18CapAlias(c, t, wrapped, field, true)
+			}
+		}
+	}
 	n := 150
 	if c.thorough() {
 		n = 3000
